@@ -1,7 +1,7 @@
 ---------------------------- MODULE MC_Requeue ----------------------------
 EXTENDS Requeue
 KAll == {"composite", "rolling", "decorator"}
-OAll == {"ok", "hook500", "hook429", "apiErr"}
+OAll == {"ok", "hook500", "hook429", "apiErr", "outage"}
 R(t, m) == [txt |-> t, ms |-> m]
 RAll == {R("0", 0), R("5", 5000), R("9", 9000), R("-3", 0), R("0.5", 500), R("none", 0)}
 =============================================================================
